@@ -4,6 +4,14 @@ import json, os
 V = os.path.dirname(os.path.dirname(os.path.abspath(__file__)))
 
 CHECKS = {
+ "C04": dict(
+    technique="runtime law checker over exhaustive small containers + icontract class invariants on the live UnitsContainer + operand fingerprints",
+    text="All 125 exponent containers over a 3-name alphabet, all 15625 ordered pairs and (thorough) all 1.95M triples are pushed through the real "
+         "* / ** eq hash of UnitsContainer, ParserHelper (3 numeric types), Unit, quantity units and dimensionalities and compared with exponent-dict "
+         "arithmetic; icontract invariants (no zero exponent, str keys, fresh cached hash) run at every method boundary of the live class during the "
+         "whole run; operands are fingerprinted before/after; pi-theorem output is checked to be a basis of the null space by own exact elimination.",
+    note="finite alphabet and exponent range; random containers over the default registry are sampled; float exponents restricted to dyadic rationals",
+    ref="4/C04"),
  "C02": dict(
     technique="runtime oracle: exact Fraction ratios from an independent reference model vs real convert in Fraction/Decimal/float registries; law monitors; cache audit",
     text="Every ordered same-dimension pair of canonical multiplicative units (about 8000) is converted in the Fraction registry and compared with == "
